@@ -201,6 +201,58 @@ pub fn explore(ex: &Ex) {
             }
         });
     }
+    // no tag is transparent: every node of every valid message (the item itself, each nested element,
+    // each slot, the contents of each protected byte string) wrapped once in each notable tag number
+    // (date/bignum/encoded-CBOR tags, the COSE and CWT tags, self-described CBOR 55799, the head-width
+    // boundaries); the whole item also wrapped twice
+    {
+        let tags: Vec<u64> = vec![0, 1, 2, 3, 4, 5, 16, 17, 18, 19, 21, 22, 23, 24, 25, 32, 35, 36, 61, 96, 97, 98, 99, 255, 256, 55799, 55800, 65535, 65536, 15309736, u32::MAX as u64, 1 << 32, u64::MAX];
+        ex.bound("c09.tags", "tag_numbers", json!(tags.len()));
+        fn tag_head(n: u64) -> Vec<u8> {
+            let mut h = Item::tag(n, Item::UInt(0)).det();
+            h.pop();
+            h
+        }
+        fn variants(it: &Item, n: u64, slot0: bool, out: &mut Vec<Item>) {
+            out.push(Item::tag(n, it.clone()));
+            match it {
+                Item::Array(a) => {
+                    for (k, x) in a.iter().enumerate() {
+                        let mut sub = Vec::new();
+                        variants(x, n, k == 0, &mut sub);
+                        for v in sub {
+                            out.push(Item::Array(a.iter().enumerate().map(|(j, y)| if j == k { v.clone() } else { y.clone() }).collect()));
+                        }
+                    }
+                }
+                Item::Bytes(bs) if slot0 => {
+                    let mut c = tag_head(n);
+                    if bs.is_empty() {
+                        c.push(0xa0);
+                    } else {
+                        c.extend_from_slice(bs);
+                    }
+                    out.push(Item::Bytes(c));
+                }
+                _ => {}
+            }
+        }
+        let mut work: Vec<(Item, u64)> = Vec::new();
+        for (_, it) in valid_messages() {
+            for n in &tags {
+                work.push((it.clone(), *n));
+            }
+        }
+        par_partitions(ex.rep, work, |(it, n), l| {
+            let mut vs = Vec::new();
+            variants(it, *n, false, &mut vs);
+            vs.push(Item::tag(*n, Item::tag(*n, it.clone())));
+            for v in vs {
+                l.state(1);
+                offer_all_types(ex, "c09.tags", &v.det(), tagged, l);
+            }
+        });
+    }
     // no structure rule depends on which algorithm a header names: every registered algorithm (and
     // its neighbours, private-use and text) at every alg position of one representative per
     // structure - body and element, protected and unprotected - with payload / ciphertext present
